@@ -242,6 +242,11 @@ class World:
             # incl. a finer dt / a start time between the old grid points for a scenario that has already been run on the coarser grid
             st = {"smA": {"s0": {"runspecs": r.choice([{"stoptime": 3.0}, {"dt": 0.5}, {"dt": 0.25, "stoptime": 2.0}, {"starttime": 0.5, "dt": 0.5}, {"dt": 0.125, "stoptime": 1.0},
                                                                    {"starttime": 0.0, "stoptime": 5.0, "dt": 1.0}, {"starttime": 0.0}, {"starttime": 2.0}])}}}      # incl. back to a start time of 0
+            # (run specs accumulate in the scenario: a combination that leaves no grid at all - a start at or after the stop - asks for nothing
+            #  that could be compared, so such a draw is replaced by the complete specification)
+            merged = dict(self.settings[("smA", "s0")].get("runspecs", {}), **st["smA"]["s0"]["runspecs"])
+            if merged.get("starttime", BASE["run"][0]) >= merged.get("stoptime", BASE["run"][1]):
+                st = {"smA": {"s0": {"runspecs": {"starttime": 0.0, "stoptime": 5.0, "dt": 1.0}}}}
             resp = self.client.post("/run", json={"scenario_managers": ["smA"], "scenarios": ["s0"], "equations": ["s1"], "settings": copy.deepcopy(st)})
             self.counters["rest_requests"] = self.counters.get("rest_requests", 0) + 1
             if resp.status_code != 200:
